@@ -194,6 +194,15 @@ def jobs_C02(tier, seed, want='C02', dsts=('path', 'seekable', 'nonseekable', 's
         s = scn([T_dl(dst, 'o5')], cfg(max_request_concurrency=2, max_in_memory_download_chunks=2), seed=seed,
                 faults={'sites': ['stream:retryable']})
         jobs.append(job(f'sched+fault dl {dst}', s, BD(tier)['FAULT'], want, max_execs=400000))
+    # a part that runs ahead of the lowest one, is interrupted and re-requested with different
+    # chunk boundaries (io chunk smaller than the part): overlapping chunks wait in the deferred queue
+    for dst in (('nonseekable',) if tier == 'quick' else ('nonseekable', 'special', 'seekable')):
+        for key, c_, io in (('o8', 4, 2), ('o6', 3, 2)):
+            s = scn([T_dl(dst, key)], cfg(multipart_chunksize=c_, io_chunksize=io, max_request_concurrency=2,
+                                          max_in_memory_download_chunks=2, num_download_attempts=2 if tier == 'quick' else 3),
+                    seed=seed, faults={'sites': ['stream:retryable', 'stream:short'], 'short_sizes': [1]})
+            jobs.append(job(f'sched+fault+short dl {dst} {key} c={c_} io={io}', s,
+                            {'sched': 1, 'env': 2} if tier == 'quick' else {'sched': 2, 'env': 2}, want, max_execs=600000))
     return jobs
 
 
@@ -290,6 +299,11 @@ def jobs_C04(tier, seed):
         for inj in ([{'kind': 'cancel', 'target': 0}], [{'kind': 'shutdown_cancel', 'msg': 'bye'}]):
             s = scn(copy.deepcopy(bt[name]), cfg(**ones), seed=seed, inject=inj)
             jobs.append(job(f'{inj[0]["kind"]} {name}', s, BD(tier)['CANCEL'], want, max_execs=300000))
+    # Ctrl-C while the user waits in result() / shutdown() / the with-exit
+    for name in ('dl-ranged-path', 'dl-ranged-nonseekable', 'up-mp-nonseekable', 'copy-mp'):
+        for script in ('wait', 'shutdown', 'with_clean'):
+            s = scn(copy.deepcopy(bt[name]), seed=seed, inject=[{'kind': 'ctrlc'}], script=script)
+            jobs.append(job(f'ctrlc {script} {name}', s, BD(tier)['CANCEL'], want, max_execs=300000))
     # (v) re-entrant subscribers on every outcome path
     acts_done = ['done', 'meta', 'set_exception', 'cancel', 'result']
     acts_q = ['done', 'meta', 'cancel']
@@ -485,6 +499,14 @@ def jobs_C11(tier, seed):
                                                 max_request_concurrency=2), seed=seed)
                 jobs.append(job(f'up chunks={chunks} subc={subc} n={len(trs)} {trs[0]["src"]}', s, k, want,
                                 max_execs=40000 if tier == 'quick' else 600000))
+    # many parts against the smallest limits: reading ahead of the requests shows as extra buffers
+    for src in ('seekable', 'nonseekable'):
+        s = scn([T_up(src, 11)], cfg(max_in_memory_upload_chunks=1, max_submission_concurrency=1,
+                                     max_request_concurrency=2, multipart_threshold=2), seed=seed)
+        jobs.append(job(f'up six parts chunks=1 subc=1 {src}', s, k, want, max_execs=40000 if tier == 'quick' else 600000))
+    s = scn([T_up('seekable', 7), T_up('seekable', 6)], cfg(max_in_memory_upload_chunks=1, max_submission_concurrency=2,
+                                                          max_request_concurrency=2, multipart_threshold=2), seed=seed)
+    jobs.append(job('up two seekable streams chunks=1 subc=2', s, k, want, max_execs=40000 if tier == 'quick' else 600000))
     for chunks in (1, 2):
         trs = [T_up('nonseekable', 3) for _ in range(4)]
         s = scn(trs, cfg(max_in_memory_upload_chunks=chunks, max_submission_concurrency=1, max_request_concurrency=1,
